@@ -11,8 +11,13 @@
   * Environments are lexical: a `let` extends the environment for the rest of its block, a loop binds its
     variable in the body only, a callee starts from exactly the data passed to it.
   * Lists and maps have no identity here (`==` on them is unspecified).
-  * Print directives and message bundles are outside Appendix A (they belong to C03/C16/C11): a print
-    with a directive and a {msg} under a bundle are `unspec`.
+  * Print directives and message bundles are outside Appendix A (they belong to C03/C16/C11): a {msg}
+    under a bundle is `unspec`; a print with directives is `unspec` unless a directive semantics `DirSem`
+    is supplied (which names exist, their arities, whether they cancel autoescaping, and what an
+    implementation computes — all parameters): then the directives apply left to right to the value, an
+    unknown name or a wrong number of arguments is an error, the arguments are evaluated left to right,
+    and the text is escaped at the end iff autoescaping is on and no applied directive cancels it.  The
+    oracle ops run without a `DirSem`.
 
   Corrections to the specification (clauses of the first version that demanded more than property C01
   states; the property says that indexing PAST THE END of a list and printing undefined are errors and is
@@ -557,6 +562,31 @@ def loopSpec (body : Env → Out Bytes) (env : Env) (var : Bytes) (last : Nat) :
     (body { (env.bind var item) with loops := (var, i, last) :: env.loops }).bind fun out =>
       (loopSpec body env var last rest (i + 1)).bind fun more => .val (out ++ more)
 
+/-- print directives: which names exist — with the numbers of arguments they accept, the implementation
+    behind them and whether they cancel autoescaping — and what an implementation computes from the value
+    and the evaluated arguments -/
+structure DirSem where
+  lookup : Bytes → Option (List Nat × Bytes × Bool)
+  apply : Bytes → Val → List Val → Out Val
+
+def isUndef : Val → Bool
+  | .undefined => true
+  | _ => false
+
+/-- the directives of a print, left to right: the value and whether the text is still to be escaped -/
+def runDirs (dsem : Option DirSem) (env : Env) : List Directive → Val → Bool → Out (Val × Bool)
+  | [], v, esc => .val (v, esc)
+  | d :: ds, v, esc =>
+    match dsem with
+    | none => .unspec
+    | some D =>
+      match D.lookup d.name with
+      | none => .error
+      | some (arities, impl, cancel) =>
+        if !arities.any (· == d.args.length) then .error
+        else (evalAll env d.args).bind fun args => (D.apply impl v args).bind fun v' =>
+          runDirs dsem env ds v' (if cancel then false else esc)
+
 /-- the data a callee starts from -/
 structure CallEnv where
   entry : Binds            -- the data map as passed in (params included)
@@ -565,15 +595,18 @@ structure CallEnv where
 
 section
 variable (reg : Registry.Reg) (hasBundle : Bool) (escape : Bool) (entry : Binds) (call : Registry.Tmpl → CallEnv → Out Bytes)
+  (dsem : Option DirSem)
 
 mutual
 /-- a command: its text and the environment for the commands after it in the same block -/
 def renderCmd : Cmd → Env → ROut
   | .rawText _ t, env => .val (t, env)
   | .print _ arg dirs, env =>
-    if !dirs.isEmpty then .unspec
-    else (eval env arg).bind fun v => (showVal v).bind fun s =>
-      .val (if escape then htmlEscape s else s, env)
+    if !dirs.isEmpty && dsem.isNone then .unspec
+    else (eval env arg).bind fun v =>
+      if isUndef v then .error
+      else (runDirs dsem env dirs v escape).bind fun r => (showVal r.1).bind fun s =>
+        .val (if r.2 then htmlEscape s else s, env)
   | .msg _ _ _ _ _ body, env =>
     if hasBundle then .unspec else (renderParts body env).bind fun r => .val (r.1, env)
   | .css _ e suffix, env =>
@@ -669,16 +702,17 @@ def escapeOn (t : Registry.Tmpl) : Bool :=
   (if t.autoescape != .unspecified then t.autoescape else t.nsAutoescape) != .off
 
 /-- a template applied to the data passed to it; `fuel` bounds the call depth -/
-def renderTmpl (reg : Registry.Reg) (hasBundle : Bool) : Nat → Registry.Tmpl → CallEnv → Out Bytes
+def renderTmpl (reg : Registry.Reg) (hasBundle : Bool) (dsem : Option DirSem) : Nat → Registry.Tmpl → CallEnv → Out Bytes
   | 0, _, _ => .unspec
   | fuel + 1, t, ce =>
-    renderBlock reg hasBundle (escapeOn t) ce.entry (renderTmpl reg hasBundle fuel) t.body
+    renderBlock reg hasBundle (escapeOn t) ce.entry (renderTmpl reg hasBundle dsem fuel) dsem t.body
       { vars := ce.entry, loops := [], ij := ce.ij, globals := ce.globals }
 
 /-- Spec.render: the text of template `name` on `data` -/
-def render (reg : Registry.Reg) (globals : Binds) (ij : Option Binds) (msgs : Bool) (name : Bytes) (data : Binds) (fuel : Nat) : Out Bytes :=
+def render (reg : Registry.Reg) (globals : Binds) (ij : Option Binds) (msgs : Bool) (name : Bytes) (data : Binds) (fuel : Nat)
+    (dsem : Option DirSem := none) : Out Bytes :=
   match Registry.lookup reg name with
   | none => .error
-  | some t => renderTmpl reg msgs fuel t { entry := data, ij := ij, globals := globals }
+  | some t => renderTmpl reg msgs dsem fuel t { entry := data, ij := ij, globals := globals }
 
 end SoyVerif.Spec.Eval
